@@ -34,9 +34,13 @@ package integrationdiagram
 //@   mark @after:syslutil.HasPattern#2 hidden
 //@   ensures [visible-call-among-selected-recorded] old(in(targetApp, b.FinalAppsMap)) && !at("human", callresult) && !at("hidden", callresult) ==> ghost("added")
 
-// The pass-through walk recurses through ProcessCalls / ProcessExcludeAndPassthrough without a measure.
+// The pass-through walk recurses through ProcessCalls / ProcessExcludeAndPassthrough. It is bounded by the set of
+// endpoints already walked: the recursion is entered only after a key that was absent has been inserted, and the set
+// only ever grows (no delete, no re-assignment anywhere in the package) — so the number of recursive entries is at most
+// the number of distinct "app <- endpoint" keys, which is finite for a finite model (assumption).
 //@ func (*IntsBuilder).WalkPassthrough
-//@   structure terminates
+//@   structure grows-only IntsBuilder.walked
+//@   assert @call:integrationdiagram.ProcessCalls [recurses-only-for-a-newly-recorded-endpoint] in(key, b.walked) && !old(in(key, b.walked)) && key == appname + " <- " + epname && arg0 == appname && arg1 == epname
 
 // Append-or-nothing: a dependency is appended exactly when its key is new, it is the dependency of exactly this
 // call statement, and the key set and the list stay in step.
